@@ -124,6 +124,7 @@ def parseOp (orc : List (String × CertInfo)) (s : String) : Option (Option Op) 
   | "uremove" => (parseBlob orc arg).map fun b => some (.uRemove b)
   | "uremoveall" => some (some .uRemoveAll)
   | "forward" => (bytesOfHex arg).map fun b => some (.forward b)
+  | "close" => some (some .close)
   | "sleep" => some none
   | _ => none
 
@@ -223,6 +224,14 @@ def classify (univ : List Cert) (ctx : StepCtx) (modelTok implTok : String) : Li
 
 def handleShim (op : String) (args : List String) (impl : Option (List String)) : Option Reply :=
   match op, args with
+  | "salgo", _ =>
+    -- signers handed out by the real shim, used with every algorithm name, against the underlying
+    -- agent's own signers: the statement ("same effect as on the underlying agent") allows one outcome
+    some ⟨["ok"], impl.map fun out =>
+      match out with
+      | ["ok"] => "ok"
+      | [o] => if ((o.splitOn "crash").length > 1) then "bad:crash" else "bad:C10.signer-differs-from-underlying"
+      | _ => "bad:protocol"⟩
   | "hist", [noupS, cf, initS, opsS, _t0, timesS, orcS] =>
     match boolOf01 noupS, parseCertOracle orcS with
     | some noUp, some orc =>
